@@ -200,6 +200,15 @@ impl ServiceInfo {
                 )));
             }
 
+            // An empty key without a value would be encoded as a zero-length
+            // string, which terminates the TXT record: it cannot be
+            // represented and would hide every property after it.
+            if key.is_empty() && prop.val().is_none() {
+                return Err(Error::Msg(
+                    "TXT property with an empty key and no value cannot be encoded".to_string(),
+                ));
+            }
+
             // RFC6763 section 6.1: each TXT record string is prefixed by a
             // single length byte, so it cannot exceed 255 bytes.
             let prop_len = key.len() + prop.val().map_or(0, |v| v.len() + 1);
